@@ -179,10 +179,18 @@ class ConnM:
         s.recv = "final"          # the promised request counts as received
         return s
 
-    def recv_push(self, parent, promised):
+    def recv_push(self, parent, promised, refused=False):
+        """``refused``: the endpoint answers the PUSH_PROMISE with RST_STREAM
+        on the promised stream.  RFC 7540 5.1: the PUSH_PROMISE reserved the
+        stream, the RST_STREAM (tracked by sent_rst when it is seen on the
+        wire) closes it - it is a stream this endpoint has reset, and its id
+        is used up.  Whether the endpoint keeps an object for such a stream is
+        its own business: 'maybe forgotten'."""
         s = self._new(promised, False, pushed=True)
         s.state = RES_REMOTE
         s.sent = "final"          # the promised request counts as sent
+        if refused:
+            s.forgotten = 1
         return s
 
     def upgrade(self):
